@@ -38,16 +38,25 @@ def lemma_ieee_step1():
 
 
 def lemma_ieee_step2():
-    """... hence math.ceil(d) == ceil_div(a, b): the real-arithmetic model of
-    int(math.ceil(a / float(b))) used by the engine is exact on this domain."""
+    """... hence math.ceil(d) is k when the quotient is the integer k, else k + 1."""
     a, b, k, c, d, hyp, mid = _ieee_terms()
     ceil_d = z3.And(z3.ToReal(c) - 1 < d, d <= z3.ToReal(c))
-    return z3.Implies(z3.And(k * b <= a, a < (k + 1) * b, b > 0, mid, ceil_d), is_ceil_div(c, a, b))
+    return z3.Implies(z3.And(mid, ceil_d), z3.Or(z3.And(a == k * b, c == k), z3.And(a > k * b, c == k + 1)))
+
+
+def lemma_ieee_step3():
+    """... which is ceil_div(a, b): the real-arithmetic model of int(math.ceil(a / float(b))) used
+    by the engine is exact for 0 <= a < 2**53, 0 < b < 2**53."""
+    a, b, k, c = z3.Ints('a b k c')
+    return z3.Implies(z3.And(b > 0, k * b <= a, a < (k + 1) * b,
+                             z3.Or(z3.And(a == k * b, c == k), z3.And(a > k * b, c == k + 1))),
+                      is_ceil_div(c, a, b))
 
 
 def register(R):
     R.lemmas.append(('C14', 'lemma.ieee_ceil_div.step1_same_unit_interval', lemma_ieee_step1))
-    R.lemmas.append(('C14', 'lemma.ieee_ceil_div.step2_ceil_equal', lemma_ieee_step2))
+    R.lemmas.append(('C14', 'lemma.ieee_ceil_div.step2_ceil_is_k_or_k_plus_1', lemma_ieee_step2))
+    R.lemmas.append(('C14', 'lemma.ieee_ceil_div.step3_equals_ceil_div', lemma_ieee_step3))
 
     # ------------------------------------------------------------------ calculate_num_parts
     R.contract(
@@ -189,3 +198,19 @@ ROOTS = [
     f'{U}:ChunksizeAdjuster._adjust_for_max_parts',
     f'{U}:ChunksizeAdjuster.adjust_chunksize',
 ]
+
+MANIFEST = dict(
+    category='proof',
+    text=('Every obligation generated from the real source of the planners (calculate_num_parts, '
+          'calculate_range_parameter, ChunksizeAdjuster.*) against contracts taken from the property statement is '
+          'discharged by z3 for all integers (no scaling down, no bound on loop iterations; the doubling loop has an '
+          'inductive invariant and a variant); an IEEE-754 lemma proves the float ceil-division exact below 2**53.'),
+    note=('Python ints are mathematical; size/float(part) is modelled over the reals, justified by the proved lemma '
+          'from A-IEEE (correct rounding, monotonicity, exactness on integers) for operands < 2**53 (checked at each '
+          'division site); f-strings of non-negative ints are compared component-wise (A-FMT).'),
+    technique='contract-based deductive verification: own AST->z3 VC generator, sidecar pre/post + loop invariants',
+)
+LEVEL = 'proof'
+TRUSTED = ['A-IEEE', 'A-FMT', 'A-REAL (only through the proved lemma)']
+ASSUMPTIONS = TRUSTED
+EXPLANATION = 'pure integer planners verified against spec functions (ceil_div, range_header) for all inputs'
